@@ -126,13 +126,14 @@ PROPS["C12"] = {
                    "goroutine; channel operations, select arm choice, sync.Map/Once/WaitGroup/context operations and every goroutine switch are decision variables of the executor, "
                    "so every interleaving within the preemption bound and every client operation sequence within the bound is explored; a blocked call is detected as a state with no enabled goroutine.",
     "bounds": "1-2 tokens; one client issuing up to 4 operations from {insert, read output, feedback, finish(+repeat), feedback unknown, finish unknown, freeze}; the reactor's run goroutine; <=2 preemptive context switches per path (switches at blocking points are free)",
-    "outside": "more than one concurrent client goroutine; more than 2 preemptions; non-seed items and duplicate ids (documented panics)",
+    "outside": "more than one concurrent client goroutine except for two concurrent finishes of one seed; more than 2 preemptions; non-seed items and duplicate ids (documented panics)",
     "assumptions": COMMON_ASSUME + ["Go memory model taken as sequentially consistent at channel/sync/atomic operations; plain loads/stores are not preemption points (data-race freedom assumed)",
                                     "select picks any ready arm (symbolic choice), default only when none is ready"],
     "harnesses": [
         {"pkg": RX, "func": "VerifH_C12_accounting3", "replay_tries": 40, "covers": ["delivered", "feedback", "finish", "feedback-unknown", "insert-blocks-when-full"]},
         {"pkg": RX, "func": "VerifH_C12_freeze3", "replay_tries": 40, "covers": ["insert-after-freeze", "drained-after-freeze"]},
         {"pkg": RX, "func": "VerifH_C12_stop", "replay_tries": 40, "covers": ["stopped"]},
+        {"pkg": RX, "func": "VerifH_C12_concurrent_finish", "replay_tries": 40, "replay_repeat": 20000, "covers": ["two-finishes"]},
         {"pkg": RX, "func": "VerifH_C12_waiting_insert", "replay_tries": 10, "covers": ["waiting-insert-frozen", "waiting-insert-admitted"]},
         {"pkg": RX, "func": "VerifH_C12_accounting4", "replay_tries": 40, "thorough_only": True, "opts": {"max_wall_s": 1500}, "covers": ["delivered", "feedback", "finish"]},
     ],
@@ -233,8 +234,8 @@ PROPS["C10"] = {
     "level": "model_checking",
     "explanation": "Zeno's own string/shape handling of server-controlled input (Link header parser, attribute splitter, JSON-in-JSON sniffing, findURLs over arbitrary value shapes, file-extension rule, M3U8 walk with nil slots) "
                    "is executed from SSA on SYMBOLIC byte strings; every index, slice, type assertion and nil dereference on every path is a panic obligation, every loop carries an unwinding bound (a spin would exceed it).",
-    "bounds": "header/attribute/text strings up to 6-7 bytes over the delimiter alphabets the parsers look at; 6 JSON value shapes; one XML document (sitemap with text, attribute, CDATA, comment) cut at every byte position; playlists as in C19",
-    "outside": "panics or hangs INSIDE third-party decoders (x/net/html, encoding/json, grafov/m3u8, pdfcpu, goada): those code bases are not encoded, the decoders are total stubs (encoding/xml's RawToken does run from SSA on the truncated documents); HTML, PDF, sitespecific extractors; URL normalisation; body processing",
+    "bounds": "header/attribute/text strings up to 6-7 bytes over the delimiter alphabets the parsers look at; 6 JSON value shapes; one XML document (sitemap with text, attribute, CDATA, comment) cut at every byte position; srcset / data-srcset texts <=4 bytes over {a , blank newline} on img and source; playlists as in C19",
+    "outside": "panics or hangs INSIDE third-party decoders (x/net/html, encoding/json, grafov/m3u8, pdfcpu, goada): those code bases are not encoded, the decoders are total stubs (encoding/xml's RawToken does run from SSA on the truncated documents); HTML extraction beyond srcset splitting, PDF, sitespecific extractors; URL normalisation; body processing",
     "assumptions": COMMON_ASSUME + ["library decoders return or fail (no panic) - the claim is about Zeno's code given such decoders",
                                     "strings.* models validated differentially (verifmodel self-test)"],
     "init_pkgs": DEFAULT_INIT + ["encoding/xml", "bufio", "bytes"],
@@ -242,6 +243,7 @@ PROPS["C10"] = {
         {"pkg": EX, "func": "VerifH_C10_link_header", "covers": ["parsed", "two-links", "simple-link"]},
         {"pkg": EX, "func": "VerifH_C10_attr", "covers": ["no-equals", "key-value"]},
         {"pkg": EX, "func": "VerifH_C10_json_shapes", "covers": ["walked"]},
+        {"pkg": EX, "func": "VerifH_C10_srcset", "opts": {"max_steps": 50000000, "unwind": 100000, "map_order_all": False}, "covers": ["srcset-parsed", "srcset-candidate"]},
         {"pkg": EX, "func": "VerifH_C10_xml_truncated", "opts": {"max_steps": 50000000, "unwind": 100000, "map_order_all": False}, "covers": ["xml-cut", "xml-whole", "xml-error"]},
         {"pkg": EX, "func": "VerifH_C19_m3u8", "covers": ["media", "master"]},
         {"pkg": EX, "func": "VerifH_C19_extension", "covers": ["has-extension"]},
@@ -270,7 +272,7 @@ PROPS["C15"] = {
         {"pkg": HQ, "func": "VerifH_C15_producer_timeout", "replay_tries": 1, "replay_timeout_s": 60, "covers": ["hq-failed-first", "timer-flush", "stopped"]},
         {"pkg": "internal/pkg/source/lq", "func": "VerifH_C15_lq", "replay_tries": 2, "replay_timeout_s": 60,
          "opts": {"sleep_env": True, "map_order_all": False, "max_steps": 20000000, "max_wall_s": 900, "no_preempt": True},
-         "covers": ["duplicate-outlink", "round-trip", "stopped"]},
+         "covers": ["duplicate-outlink", "new-outlink-after-duplicate", "round-trip", "stopped"]},
     ],
 }
 
@@ -369,7 +371,7 @@ PROPS["C05"] = {
                    "whose URL is drawn from a table of URL shapes (good, built-in excluded host, non-http scheme, localhost, 127.0.0.1, dotless host, exclude-string, quoted, fragment, relative) under all 16 include/exclude filter combinations; "
                    "an independent scope predicate written from the statement decides which nodes may carry a request.",
     "bounds": "16 URL shapes x 16 include/exclude filter combinations x 3 exclusion files (none, one literal pattern, two of which the second matches) x {seed, 1-2 asset children, redirect target}; empty seen-store",
-    "outside": "ada-url's parsing itself (modelled by a per-input outcome table; the native replay runs the real ada on the same inputs); regular-expression semantics beyond literal patterns (a literal pattern is modelled as substring search; the native replay uses the real regexp package); GenerateCrawlConfig appending the two built-in hosts (the harness builds the list it produces)",
+    "outside": "ada-url's parsing itself (modelled by a per-input outcome table; the native replay runs the real ada on the same inputs); regular-expression semantics beyond literal patterns (a literal pattern is modelled as substring search; the native replay uses the real regexp package); viper/flag parsing in front of GenerateCrawlConfig (the harness fills the Config struct; GenerateCrawlConfig itself runs from SSA with 0-2 scripted exclusion files)",
     "assumptions": COMMON_ASSUME + ["goada.New/NewWithBase return, per input, the protocol/hostname/href recorded in the harness table; Href() has no fragment iff SetHash(\"\") was called",
                                     "http.NewRequest returns a request for a parsable URL; leveldb store = map"],
     "models": dict({k: v for k, v in URL_MODELS.items() if not k.endswith("models.URLToString")},
@@ -377,6 +379,10 @@ PROPS["C05"] = {
     "stub_pkgs": DEFAULT_STUBS + [STATS],
     "harnesses": [
         {"pkg": PRE, "func": "VerifH_C05_children", "opts": {"map_order_all": False}, "covers": ["out-of-scope-child", "in-scope-child"]},
+        {"pkg": "internal/pkg/config", "func": "VerifH_C05_crawl_config", "models": dict(DEFAULT_MODELS, **{
+            Z + "/internal/pkg/config.readLocalExclusionFile": VM + "ReadLocalExclusionFile", Z + "/internal/pkg/utils.GetVersion": VM + "UtilsGetVersion",
+            "regexp.MustCompile": VM + "RegexpMustCompile", "(*regexp.Regexp).MatchString": VM + "RegexpMatchString"}),
+         "covers": ["operator-host-kept", "two-exclusion-files"]},
         {"pkg": PRE, "func": "VerifH_C05_seed", "opts": {"map_order_all": False}, "covers": ["out-of-scope-seed", "in-scope-seed", "seencheck-disabled"]},
     ],
 }
